@@ -155,6 +155,11 @@ def inside_gap(doc, a, r):
 def first_step(rng, info, d, docs):
     tr = Transform(d)
     name, args, thunk = ops.plan_op(rng, info, d, docs)
+    if rng.random() < 0.06:
+        # typing several strings at once: Transform.insert with a list of adjacent text nodes of equal marks
+        case = gen.multi_text_insert(rng, info.schema, d)
+        if case is not None:
+            name, thunk = "insert", (lambda p0, ns: lambda tr_: tr_.insert(p0, ns))(*case)
     st, val, added = ops.run_op(tr, thunk)
     if added >= 1:
         return name, tr.steps[0]
